@@ -189,31 +189,31 @@ Section ParamInv.
         + inversion H; subst; exact H1.
     Qed.
 
-    Lemma deps_loop_ginv l : forall st b acc st' b' r, deps_loop depsf f l st b acc = ((st', b'), r) -> Inv st -> Inv st'.
+    Lemma deps_loop_ginv l : forall st b acc err st' b' r, deps_loop depsf f l st b acc err = ((st', b'), r) -> Inv st -> Inv st'.
     Proof.
-      induction l as [|d l IH]; intros st b acc st' b' r H HI; cbn [deps_loop] in H.
+      induction l as [|d l IH]; intros st b acc err st' b' r H HI; cbn [deps_loop] in H.
       - inversion H; subst; exact HI.
-      - destruct (resolve_dep depsf f st b d) as [[st1 b1] [v|e]] eqn:G; pose proof (Hd _ _ _ _ _ _ G HI) as H1.
-        + eapply IH; eassumption.
-        + inversion H; subst; exact H1.
+      - destruct (resolve_dep depsf f st b d) as [[st1 b1] [v|e]] eqn:G; pose proof (Hd _ _ _ _ _ _ G HI) as H1;
+          eapply IH; eassumption.
     Qed.
 
-    Lemma fields_loop_ginv l : forall st b v st' b' r, fields_loop depsf f l st b v = ((st', b'), r) -> Inv st -> Inv st'.
+    Lemma fields_loop_ginv l : forall st b v err st' b' r, fields_loop depsf f l st b v err = ((st', b'), r) -> Inv st -> Inv st'.
     Proof.
-      induction l as [|[n dp] l IH]; intros st b v st' b' r H HI; cbn [fields_loop] in H.
+      induction l as [|[n dp] l IH]; intros st b v err st' b' r H HI; cbn [fields_loop] in H.
       - inversion H; subst; exact HI.
       - destruct (resolve_dep depsf f st b dp) as [[st1 b1] [x|e]] eqn:G; pose proof (Hd _ _ _ _ _ _ G HI) as H1.
-        + destruct (obj_set v n x) as [v'|e]; [|inversion H; subst; exact H1]. eapply IH; eassumption.
-        + inversion H; subst; exact H1.
+        + destruct (obj_set v n x) as [v'|e]; eapply IH; eassumption.
+        + eapply IH; eassumption.
     Qed.
 
-    Lemma calls_loop_ginv l : forall st b v st' b' r, calls_loop depsf f l st b v = ((st', b'), r) -> Inv st -> Inv st'.
+    Lemma calls_loop_ginv l : forall st b v err st' b' r, calls_loop depsf f l st b v err = ((st', b'), r) -> Inv st -> Inv st'.
     Proof.
-      induction l as [|c l IH]; intros st b v st' b' r H HI; cbn [calls_loop] in H.
+      induction l as [|c l IH]; intros st b v err st' b' r H HI; cbn [calls_loop] in H.
       - inversion H; subst; exact HI.
       - destruct (resolve_deps depsf f st b (rc_deps c)) as [[st1 b1] [x|e]] eqn:G; pose proof (Hds _ _ _ _ _ _ G HI) as H1.
-        + destruct (obj_call v (rc_method c) x) as [v'|e]; [|inversion H; subst; exact H1]. eapply IH; eassumption.
-        + inversion H; subst; exact H1.
+        + destruct (obj_call v (rc_method c) x) as [v'|e]; [eapply IH; eassumption|].
+          destruct (rc_wither c); [inversion H; subst; exact H1|]. eapply IH; eassumption.
+        + eapply IH; eassumption.
     Qed.
 
     Lemma Inv_allocated st e : Inv st -> Inv (with_serial (with_trace st e) (rt_serial st + 1)).
@@ -246,10 +246,10 @@ Section ParamInv.
       unfold build. intros H HI.
       destruct (create depsf f d st b) as [[st1 b1] [v1|e]] eqn:C; pose proof (create_ginv _ _ _ _ _ _ C HI) as H1;
         [|inversion H; subst; exact H1].
-      destruct (fields_loop depsf f (sd_fields d) st1 b1 v1) as [[st2 b2] [v2|e]] eqn:Fl;
-        pose proof (fields_loop_ginv _ _ _ _ _ _ _ Fl H1) as H2; [|inversion H; subst; exact H2].
-      destruct (calls_loop depsf f (sd_calls d) st2 b2 v2) as [[st3 b3] [v3|e]] eqn:Cl;
-        pose proof (calls_loop_ginv _ _ _ _ _ _ _ Cl H2) as H3; [|inversion H; subst; exact H3].
+      destruct (fields_loop depsf f (sd_fields d) st1 b1 v1 None) as [[st2 b2] [v2|e]] eqn:Fl;
+        pose proof (fields_loop_ginv _ _ _ _ _ _ _ _ Fl H1) as H2; [|inversion H; subst; exact H2].
+      destruct (calls_loop depsf f (sd_calls d) st2 b2 v2 None) as [[st3 b3] [v3|e]] eqn:Cl;
+        pose proof (calls_loop_ginv _ _ _ _ _ _ _ _ Cl H2) as H3; [|inversion H; subst; exact H3].
       eapply decs_loop_ginv; eassumption.
     Qed.
   End Loops.
@@ -1028,20 +1028,22 @@ Definition newdef (o : str) (args : list prim) : sdef :=
   {| sd_create := CCtor o (failing o) (map DLit args); sd_fields := []; sd_calls := []; sd_tags := []; sd_scope := OScDefault |}.
 
 (** literal arguments: no recursion, nothing changes *)
-Lemma deps_loop_lits depsf f args : forall st b acc,
-  deps_loop depsf (S f) (map DLit args) st b acc = ((st, b), ROk (rev acc ++ map value_of_prim args)).
+Lemma deps_loop_lits depsf f args : forall st b acc err,
+  deps_loop depsf (S f) (map DLit args) st b acc err = ((st, b), fin err (rev acc ++ map value_of_prim args)).
 Proof.
-  induction args as [|a args IH]; intros st b acc; cbn [map deps_loop]; [rewrite app_nil_r; reflexivity|].
+  induction args as [|a args IH]; intros st b acc err; cbn [map deps_loop]; [rewrite app_nil_r; reflexivity|].
   rewrite resolve_dep_unfold, IH. cbn [rev]. rewrite <- app_assoc. reflexivity.
 Qed.
 
 Lemma deps_loop_lits_inv depsf f args : forall st b acc st' b' vs,
-  deps_loop depsf f (map DLit args) st b acc = ((st', b'), ROk vs) ->
+  deps_loop depsf f (map DLit args) st b acc None = ((st', b'), ROk vs) ->
   st' = st /\ b' = b /\ vs = rev acc ++ map value_of_prim args.
 Proof.
   destruct f as [|f]; intros st b acc st' b' vs H.
-  - destruct args as [|a args]; cbn [map deps_loop] in H; [|rewrite resolve_dep_0 in H; discriminate H].
-    inversion H; subst. rewrite app_nil_r. auto.
+  - destruct args as [|a args]; cbn [map deps_loop] in H.
+    + inversion H; subst. rewrite app_nil_r. auto.
+    + rewrite resolve_dep_0 in H. cbn [keep_err] in H.
+      pose proof (deps_loop_some depsf 0 (map DLit args) st b acc (s "out of fuel")) as HE. rewrite H in HE. discriminate HE.
   - rewrite deps_loop_lits in H. inversion H; subst. auto.
 Qed.
 
@@ -1064,7 +1066,7 @@ Proof.
   unfold build, create. cbn [newdef sd_create sd_fields sd_calls].
   destruct (resolve_deps depsf f st b (map DLit args)) as [[st1 b1] [vs|e]] eqn:G; [|discriminate].
   apply resolve_deps_lits_inv in G. destruct G as (-> & -> & ->).
-  destruct (failing o); [discriminate|]. cbn [alloc fields_loop calls_loop].
+  destruct (failing o); [discriminate|]. cbn [alloc fields_loop calls_loop fin].
   rewrite decs_loop_none by (intros dd _; reflexivity). intros H. inversion H; subst. auto.
 Qed.
 
@@ -1073,7 +1075,7 @@ Lemma build_newdef_ok depsf f n o args st b :
   build depsf (S (S f)) (newdef o args) n st b = ((constructed st o, b), ROk (VObj o (map value_of_prim args) [] [] (rt_serial st + 1))).
 Proof.
   intros Hf. unfold build, create. cbn [newdef sd_create sd_fields sd_calls].
-  rewrite resolve_deps_unfold, deps_loop_lits, Hf. cbn [alloc fields_loop calls_loop rev app].
+  rewrite resolve_deps_unfold, deps_loop_lits, Hf. cbn [alloc fields_loop calls_loop rev app fin].
   rewrite decs_loop_none by (intros dd _; reflexivity). reflexivity.
 Qed.
 
